@@ -304,9 +304,142 @@ def f_cshared(rng, u, c):
     return '\n'.join(lines) + '\n', files, {'expect_test_depends': {'tux%s' % u: deps + ['ux%s' % u] + targs}}
 
 
+ENV_NAMES = ['ZED', 'ALPHA', 'Mid', 'PATH', 'LD_LIBRARY_PATH', 'A10', 'A9', 'a_b', 'QT_X', 'LANG', 'HOME_X', 'TMPX']
+
+
+def env_object(rng, var, unsets=None):
+    """statements building an environment() object `var` with every method: set / append / prepend
+    (several values, explicit separators) and unset() of several DIFFERENT variables"""
+    names = list(ENV_NAMES)
+    rng.shuffle(names)
+    init = rng.choice(["", "{'%s': 'i1', '%s': 'i2'}" % (names[0], names[1]), "['%s=l1', '%s=l2']" % (names[0], names[1]),
+                       "{'%s': ['p', 'q']}, method: 'prepend', separator: ';'" % names[0]])
+    lines = ['%s = environment(%s)' % (var, init)]
+    ops = []
+    for n in names[2:2 + rng.randint(1, 4)]:
+        m = rng.choice(['set', 'append', 'prepend'])
+        vals = rng.sample(["'v1'", "'x y'", "'/opt/z'", "'a;b'", "''"], rng.randint(1, 3))
+        sep = rng.choice(['', '', ", separator: ','", ", separator: ' '", ", separator: '|'"])
+        ops.append("%s.%s('%s', %s%s)" % (var, m, n, ', '.join(vals), sep))
+    k = rng.choice([0, 2, 2, 3, 4]) if unsets is None else unsets
+    for n in names[7:7 + k]:
+        ops.append("%s.unset('%s')" % (var, n))
+    rng.shuffle(ops)
+    return lines + ops
+
+
+def f_envobj(rng, u, c):
+    """environment() objects as env: of custom_target, run_target, generator.process, test, benchmark,
+    add_test_setup and meson.add_devenv"""
+    files = {'gen%s.py' % u: GEN_PY, 'src%s.in' % u: 'data %s\n' % u}
+    lines = ["py%s = find_program('python3')" % u]
+    lines += env_object(rng, 'e1' + u, unsets=rng.choice([2, 3, 4]))     # always >= 2 unset + >= 1 set
+    lines.append("ect%s = custom_target('ect%s', input: 'src%s.in', output: 'ect%s.out', env: e1%s, "
+                 "command: [py%s, files('gen%s.py'), '@INPUT@', '@OUTPUT@'])" % (u, u, u, u, u, u, u))
+    uses = ['run', 'test', 'bench', 'setup', 'devenv', 'ct2', 'cap']
+    if c:
+        uses.append('gen')
+    rng.shuffle(uses)
+    for i, k in enumerate(uses[:rng.randint(2, len(uses))]):
+        v = 'e%d%s' % (i + 2, u)
+        lines += env_object(rng, v)
+        if k == 'run':
+            lines.append("run_target('ert%s', command: ['sh', '-c', 'true'], env: %s)" % (u, v))
+        elif k == 'test':
+            lines.append("test('et%s', find_program('true'), env: %s)" % (u, v))
+        elif k == 'bench':
+            lines.append("benchmark('eb%s', find_program('true'), env: %s)" % (u, v))
+        elif k == 'setup':
+            lines.append("add_test_setup('esetup%s', env: %s, exe_wrapper: ['sh', '-c'], gdb: false)" % (u, v))
+        elif k == 'devenv':
+            lines.append("meson.add_devenv(%s)" % v)
+            lines.append("meson.add_devenv({'DZ%s': ['z', 'a'], 'DA': 'x'}, method: 'append', separator: ',')" % u)
+        elif k == 'ct2':
+            lines.append("custom_target('ect2%s', output: ['e2%s.z', 'e2%s.a'], command: ['touch', '@OUTPUT@'], env: %s, depends: ect%s)" % (u, u, u, v, u))
+        elif k == 'cap':
+            lines.append("custom_target('ecap%s', output: 'ecap%s.txt', command: ['sh', '-c', 'env'], capture: true, env: %s)" % (u, u, v))
+        elif k == 'gen':
+            files['egmain%s.c.in' % u] = C_MAIN
+            lines += ["eg%s = generator(find_program('cp'), output: '@BASENAME@', arguments: ['@INPUT@', '@OUTPUT@'])" % u,
+                      "executable('egx%s', eg%s.process('egmain%s.c.in', env: %s))" % (u, u, u, v)]
+    return '\n'.join(lines) + '\n', files
+
+
+def f_more(rng, u, c):
+    """language-free functions and keyword arguments the other snippets do not use"""
+    files = {'kv%s.conf' % u: 'ZKEY=1\nAKEY=two\nMKEY=3\n', 'man%s.1' % u: '.TH X 1\n', 'man%s.3' % u: '.TH Y 3\n',
+             'ren%sz.txt' % u: 'z\n', 'ren%sa.txt' % u: 'a\n', 'ss%sz.txt' % u: 'z\n', 'ss%sa.txt' % u: 'a\n', 'ss%sm.txt' % u: 'm\n',
+             'cpy%s.txt' % u: 'copy\n', 'nest%s/d/h1.h' % u: '\n', 'nest%s/h2.h' % u: '\n', 'vcs%s.in' % u: 'v=@VCS_TAG@ s=@SHA@\n'}
+    lines = ["kv%s = import('keyval').load(files('kv%s.conf'))" % (u, u),
+             "configure_file(output: 'kv%s.h', configuration: kv%s)" % (u, u),
+             "install_man('man%s.1', 'man%s.3'%s)" % (u, u, rng.choice(['', ", locale: 'de'", ", install_mode: 'rw-r--r--'"])),
+             "install_data(sources: ['ren%sz.txt', 'ren%sa.txt'], rename: ['zz%s.txt', 'sub/aa%s.txt'], install_dir: 'share/ren%s', install_tag: 'doc', install_mode: ['rw-r-----', 0, 0])" % (u, u, u, u, u),
+             "install_headers('nest%s/d/h1.h', 'nest%s/h2.h', preserve_path: true, install_dir: 'include/ph%s')" % (u, u, u),
+             "fs%s = import('fs')" % u,
+             "fs%s.copyfile('cpy%s.txt', 'cpyout%s.txt', install: true, install_dir: 'share/cp%s', install_tag: 'runtime')" % (u, u, u, u),
+             "ss%s = import('sourceset').source_set()" % u,
+             "ss%s.add(when: 'ZKEY', if_true: files('ss%sz.txt'), if_false: files('ss%sa.txt'))" % (u, u, u),
+             "ss%s.add(files('ss%sm.txt'))" % (u, u),
+             "ss%s.add_all(when: ['AKEY', 'MKEY'], if_true: ss%s)" % (u, u) if False else "ss%sr = ss%s.apply({'ZKEY': %s, 'AKEY': true})" % (u, u, rng.choice(['true', 'false'])),
+             "custom_target('ssct%s', input: ss%sr.sources(), output: 'ssct%s.out', command: ['cat', '@INPUT@'], capture: true, install: true, install_dir: 'share/ss%s', install_tag: 'devel', install_mode: 'rwxr-x---', build_always_stale: %s, console: false)"
+             % (u, u, u, u, rng.choice(['true', 'false'])),
+             "set_variable('dyn_%s', ['z', 'a'])" % u,
+             "summary('dyn%s', get_variable('dyn_%s'), list_sep: ', ')" % (u, u),
+             "summary({'zz': false, 'aa': true}, bool_yn: true, section: 'More %s')" % u,
+             "meson.override_find_program('ofp%s', find_program('true'))" % u,
+             "meson.add_install_script(find_program('ofp%s'), 'z', 'a', install_tag: 'doc', skip_if_destdir: true, dry_run: true)" % u,
+             "vcs_tag(command: ['sh', '-c', 'echo 1.2.3'], input: 'vcs%s.in', output: 'vcs%s.txt', replace_string: '@VCS_TAG@', fallback: 'none', install: true, install_dir: 'share/v%s')" % (u, u, u),
+             "configure_file(output: 'inst%s.h', configuration: {'I': 1}, install: true, install_dir: 'include/i%s', install_tag: 'devel', install_mode: 'r--r--r--')" % (u, u),
+             "alias_target('more%s', []%s)" % (u, '') if False else "foreach k, v : {'zf': 1, 'af': 2, 'mf': 3}\n  configure_file(output: 'fe%s_' + k + '.txt', configuration: {'V': v})\nendforeach" % u,
+             "if false\n  subdir_done()\nendif",
+             "rc%s = run_command('sh', '-c', 'echo z a m', check: true, capture: true, env: {'RZ': '1', 'RA': '2'})" % u,
+             "rc2%s = run_command(find_program('cat'), files('kv%s.conf'), check: false)" % (u, u),
+             "foreach i : range(1, 4, 2)\n  configure_file(output: 'rg%s_@0@.txt'.format(i), configuration: {'W': rc%s.stdout().strip().split()[i - 1], 'N': rc2%s.stdout().split()[0]})\nendforeach" % (u, u, u),
+             "jp%s = join_paths('zdir', 'adir', 'f%s')" % (u, u),
+             "if is_variable('jp%s')\n  summary('jp%s', jp%s)\n  unset_variable('jp%s')\nendif" % (u, u, u, u),
+             "dis%s = disabler()" % u,
+             "if not is_disabler(dis%s)\n  error('unreachable')\nendif" % u,
+             "warning('a generated warning %s')" % u]
+    if rng.random() < 0.5:
+        lines.append("dep_nf%s = dependency('surely-not-there-%s', required: false, method: 'pkg-config', version: '>=1', not_found_message: 'nf')" % (u, u))
+        lines.append("summary('nf%s', dep_nf%s)" % (u, u))
+    return '\n'.join(lines) + '\n', files
+
+
+def f_cmore(rng, u, c):
+    """C targets: keyword arguments and helper functions the other snippets do not use"""
+    if not c:
+        return '', {}
+    files = {'mz%s.c' % u: 'int mz%s(void) { return 1; }\n' % u, 'ma%s.c' % u: 'int ma%s(void) { return 2; }\n' % u,
+             'mo%s.c' % u: 'int mo%s(void) { return 3; }\n' % u, 'mmain%s.c' % u: C_MAIN, 'minc%s/x.h' % u: '\n', 'mld%s.map' % u: '{ global: *; };\n',
+             'mextra%s.txt' % u: 'x\n'}
+    lines = ["cc%s = meson.get_compiler('c')" % u,
+             "cdm%s = configuration_data()" % u,
+             "foreach h : ['stdio.h', 'zzz_nope.h', 'stdlib.h']\n  cdm%s.set('HAVE_' + h.underscorify().to_upper(), cc%s.has_header(h))\nendforeach" % (u, u),
+             "cdm%s.set('SIZEOF_INT', cc%s.sizeof('int'))" % (u, u),
+             "cdm%s.set10('HAVE_PRINTF', cc%s.has_function('printf'))" % (u, u),
+             "configure_file(output: 'cdm%s.h', configuration: cdm%s)" % (u, u),
+             "libm%s = cc%s.find_library('m', required: false)" % (u, u),
+             "sl%s = static_library('msl%s', 'mz%s.c', 'ma%s.c', pic: true, install: false, extra_files: 'mextra%s.txt', implicit_include_directories: false)" % (u, u, u, u, u),
+             "obj%s = sl%s.extract_all_objects(recursive: false)" % (u, u),
+             "bl%s = both_libraries('mbl%s', 'mo%s.c', objects: obj%s, link_whole: sl%s, gnu_symbol_visibility: 'hidden', soversion: '2', install: true, install_rpath: '/opt/z:/opt/a', build_rpath: '/bz:/ba', link_depends: 'mld%s.map', name_prefix: 'pre', install_tag: 'rt')"
+             % (u, u, u, u, u, u),
+             "bt%s = build_target('mbt%s', 'mz%s.c', target_type: 'static_library', build_by_default: true)" % (u, u, u),
+             "sm%s = shared_module('msm%s', 'ma%s.c', name_suffix: 'plug', install: true, install_dir: 'lib/plug%s')" % (u, u, u, u),
+             "dd%s = declare_dependency(link_with: bl%s.get_shared_lib(), include_directories: include_directories('minc%s'), sources: files('minc%s/x.h'), "
+             "dependencies: [libm%s, dependency('threads')], compile_args: ['-DDDZ', '-DDDA'], variables: {'zz': 'z', 'aa': 'a'}, extra_files: files('mextra%s.txt'))" % (u, u, u, u, u, u),
+             "mx%s = executable('mx%s', 'mmain%s.c', dependencies: dd%s, export_dynamic: true, pie: true, install: true, install_dir: 'libexec/m%s', "
+             "c_args: ['-DZ1', '-DA1'], link_args: ['-Wl,-z,now'], override_options: ['c_std=c99', 'b_ndebug=if-release', 'optimization=1'], "
+             "link_language: 'c', build_by_default: false, install_mode: 'rwxr-xr-x', native: false)" % (u, u, u, u, u),
+             "test('mxt%s', mx%s, args: [sm%s, files('mextra%s.txt')], workdir: meson.current_build_dir(), protocol: 'exitcode', verbose: true, "
+             "env: ['ZL=1', 'AL=2'], depends: [sl%s, sm%s], suite: 'm')" % (u, u, u, u, u, u),
+             "meson.add_install_script('sh', '-c', 'true', mx%s, sm%s)" % (u, u)]
+    return '\n'.join(lines) + '\n', files
+
+
 FEATURES = [('confdata', f_confdata), ('confdict', f_confdict), ('confcopy', f_confcopy), ('confcmd', f_confcmd),
             ('custom', f_custom), ('tests', f_tests), ('install', f_install), ('pkgconfig', f_pkgconfig),
-            ('cmake', f_cmake), ('misc', f_misc), ('ctargets', f_ctargets), ('cshared', f_cshared)]
+            ('cmake', f_cmake), ('misc', f_misc), ('ctargets', f_ctargets), ('cshared', f_cshared), ('envobj', f_envobj), ('more', f_more), ('cmore', f_cmore)]
 FEAT = dict(FEATURES)
 FEAT['confcmd_all'] = f_confcmd_all      # corpus only
 
@@ -338,7 +471,7 @@ def make_project(rng, name, feats=None, c=None, nsub=None, subdirs=None):
         c = rng.random() < 0.45
     if feats is None:
         k = rng.randint(2, 6)
-        pool = [n for n, _ in FEATURES if c or n not in ('ctargets', 'cshared')]
+        pool = [n for n, _ in FEATURES if c or n not in ('ctargets', 'cshared', 'cmore')]
         feats = [rng.choice(pool) for _ in range(k)]
         if c and 'ctargets' not in feats:
             feats.append('ctargets')
@@ -352,6 +485,12 @@ def make_project(rng, name, feats=None, c=None, nsub=None, subdirs=None):
     head = ["project('%s', %sversion: '1.%d', default_options: [%s], license: ['MIT', 'Apache-2.0'])"
             % (name, "'c', " if c else '', rng.randrange(10), ', '.join(dopts[:rng.randint(0, 3)])),
             "message('zopt=' + get_option('zopt'))"]
+    if c and rng.random() < 0.5:     # must come before the first target
+        head += ["add_project_arguments(meson.get_compiler('c').get_supported_arguments(['-Wall', '-Wzzz-nope', '-Wextra']), language: 'c')",
+                 "add_project_link_arguments(meson.get_compiler('c').get_supported_link_arguments(['-Wl,--as-needed', '-Wl,--zzz-nope']), language: 'c')",
+                 "add_global_arguments('-DGLOBAL_Z', '-DGLOBAL_A', language: 'c')",
+                 "add_global_link_arguments('-Wl,-z,relro', language: 'c')",
+                 "add_project_dependencies(dependency('threads'), declare_dependency(compile_args: '-DPROJDEP'), language: 'c')"]
     top, sub, meta = list(head), [], {}
     for i, fn in enumerate(feats):
         u = '%s%d' % (fn[:2], i)
@@ -401,11 +540,12 @@ def corpus(rng):
     subprojects with wraps, nested subdir."""
     out = []
     for n, _ in FEATURES:
-        if n in ('ctargets', 'cshared'):
+        if n in ('ctargets', 'cshared', 'cmore'):
             continue
         out.append(make_project(rng, 'corp_' + n, feats=[n, n], c=False, nsub=0, subdirs=False))
     out.append(make_project(rng, 'corp_c_all', feats=['ctargets', 'ctargets', 'confdata', 'custom', 'tests', 'pkgconfig', 'install'], c=True, nsub=1, subdirs=True))
     out.append(make_project(rng, 'corp_c_shared', feats=['cshared', 'cshared'], c=True, nsub=0, subdirs=False))
+    out.append(make_project(rng, 'corp_c_more', feats=['cmore', 'envobj'], c=True, nsub=0, subdirs=True))
     out.append(make_project(rng, 'corp_c_min', feats=['ctargets'], c=True, nsub=0, subdirs=False))
     out.append(make_project(rng, 'corp_subs', feats=['confdata', 'misc', 'install'], c=False, nsub=3, subdirs=True))
     # build directory nested inside the source tree (`meson setup build`), with configure-time commands
